@@ -5,6 +5,17 @@ import ZodbModel.Resolve
 namespace Proofs.Resolve
 open ZodbModel ZodbModel.Resolve
 
+/-- decidable equality of results, so that concrete runs of the model can be checked by `decide` -/
+instance instDecidableEqExcept {ε α : Type} [DecidableEq ε] [DecidableEq α] :
+    DecidableEq (Except ε α) := fun a b =>
+  match a, b with
+  | .ok x, .ok y =>
+    if h : x = y then isTrue (by rw [h]) else isFalse (fun e => h (by injection e))
+  | .error x, .error y =>
+    if h : x = y then isTrue (by rw [h]) else isFalse (fun e => h (by injection e))
+  | .ok _, .error _ => isFalse (fun e => by cases e)
+  | .error _, .ok _ => isFalse (fun e => by cases e)
+
 /-! ### references -/
 
 /-- what one pickled class slot looks like after unpickle → PersistentReference → pickle:
